@@ -41,9 +41,9 @@ PLAN = {
              title="history policies"),
  "C09": dict(suite=True, machines=["pseudo", "histS", "complx"], profile=PLAIN, mc=MC_PLAIN5, invariants=["P_C09"],
              title="explicit entry, fork, entry and exit points"),
- "C10": dict(machines=["compl", "complh", "complx"], profile=dict(DEFER, subs=0.3), mc=dict(MC_QUEUE, budget=0, maxcalls=4, dirops=(), direvs=()), invariants=["P_C10"],
+ "C10": dict(machines=["compl", "complh", "complx", "blocksub"], profile=dict(DEFER, subs=0.3), mc=dict(MC_QUEUE, budget=0, maxcalls=4, dirops=(), direvs=()), invariants=["P_C10"],
              title="completion transitions"),
- "C11": dict(machines=["block"], profile=dict(QUEUE, subs=0.3), mc=dict(MC_PLAIN, maxcalls=4), invariants=["P_C11"],
+ "C11": dict(machines=["block", "blocksub"], profile=dict(QUEUE, subs=0.3), mc=dict(MC_PLAIN, maxcalls=4), invariants=["P_C11"],
              title="terminate / interrupt"),
  "C12": dict(machines=["hier2", "policy1", "policy2", "policy3", "compl"], profile=THROW, mc=MC_THROW, invariants=["P_C12"],
              title="exceptions"),
@@ -52,14 +52,14 @@ PLAN = {
  "C14": dict(machines=["fe_flat", "fe_hier2", "fe_guards"], profile=dict(PLAIN, subs=0.1), mc=MC_PLAIN, invariants=["P_C01", "P_C02"],
              frontends={"functor": ALL, "basic": ALL, "puml": ["back", "back11", "mp11", "mp11_fct"]},
              title="front-end equivalence and the PlantUML parser"),
- "C15": dict(machines=["defer", "pseudo", "histA", "compl"], profile=dict(MIXED, throws=0.05, copy=0.25, moves=0.3, ninst=3), ninst=3,
+ "C15": dict(machines=["defer", "pseudo", "histA", "histS", "compl"], profile=dict(MIXED, throws=0.05, copy=0.25, moves=0.3, ninst=3, fork=0.4), ninst=3, nexec=(240, 3000),
              mc=dict(maxcalls=3, budget=0, apis=("start", "pe", "enq", "drain", "copy", "assign"), dirops=(), direvs=(), ninst=2), invariants=["P_C15"],
              title="copies and moves"),
  "C20": dict(machines=["events"], profile=EVENTS, ninst=3, san_machines=["events"], valgrind=True,
              mc=dict(maxcalls=3, budget=1, percall=False, apis=("start", "pe", "enq", "drain1"), dirops=("pe",), direvs=("E2", "E6")), invariants=["P_C04"], trace_invariants=[],
              title="stored events"),
  "C16": dict(machines=["copyser", "histA", "histS"], configs=["back", "back_fct", "back11"], ninst=3,
-             profile=dict(PLAIN, subs=0.1, restart=0.03, saveload=0.25, copy=0.05, ninst=3, maxcalls=9),
+             profile=dict(PLAIN, subs=0.1, restart=0.03, saveload=0.25, copy=0.05, ninst=3, maxcalls=9, fork=0.4),
              mc=dict(maxcalls=4, budget=0, apis=("start", "pe", "saveload"), dirops=(), direvs=(), ninst=2), invariants=["P_C16", "P_C03"],
              trace_invariants=["P_C16"], title="serialization round trip"),
  "C17": dict(suite=True, machines=["ortho", "hier3", "block"], profile=dict(PLAIN, restart=0.05), mc=MC_PLAIN, invariants=["P_C17"],
@@ -73,3 +73,11 @@ PLAN = {
 import extra
 EXTRA = {"C20": extra.sanitizer_phase, "C14": extra.puml_tokenizer_phase,
          "C12": lambda prop, pl, tier, v, seed, ev: extra.sanitizer_phase(prop, dict(pl, san_machines=["compl", "policy2"], valgrind=True), tier, v, seed, ev)}
+
+
+# random machine definitions (gen/randdef.py, name rand<seed>) added to the conformance phase: a few fixed seeds in the quick tier
+# (their drivers stay in the ccache), more in the thorough tier
+RAND = {}
+def rand_seeds(prop, tier):
+    q, t = RAND.get(prop, ((), ()))
+    return list(q) if tier == "quick" else list(q) + list(t)
